@@ -174,6 +174,32 @@ func init() {
 	})
 }
 
+func init() {
+	addSpec(&propSpec{ID: "C14B", Rule: "development alias: block half of C14", Assumptions: baseAssumptions})
+}
+
+func init() {
+	rtRule := "configurations: the full product 4 block sizes x block checksum x content checksum x content size x Writer concurrency {1,2,4,GOMAXPROCS} x legacy (256), level rotated over {Fast,Level1..9} (thorough: every level for every configuration); inputs: empty, one byte, block size -1/=/+1, several blocks (exact multiples too), incompressible, highly compressible, contents whose block / content XXH32 is 0 (crafted by inverting XXH32); delivery: one Write, random partitions, partitions with Flush in between, one ReadFrom from a fragmenting source. "
+	addSpec(&propSpec{
+		ID:          "C02",
+		Rule:        rtRule + "Each emitted stream is read back by fresh Readers with concurrency {1,2,4,GOMAXPROCS} through WriteTo and Read with small / >= block / mixed buffer-size sequences; judged: every Writer call returned nil, decoded bytes equal the input, clean end of stream. A cell is (configuration, input class, delivery, reader concurrency, read mode).",
+		Assumptions: baseAssumptions,
+	})
+	addSpec(&propSpec{
+		ID:          "C09",
+		Rule:        rtRule + "Each emitted stream is parsed by the independent frame parser in strict-writer mode: magic, version 01, reserved bits 0, configured block-size code / flags / content size, header checksum, blocks <= maximum and strictly valid, block checksum = XXH32 of the stored block bytes present iff configured, end mark, content checksum, decoded content = input, no trailing bytes; legacy: magic then only size-prefixed compressed blocks of 8 MiB content each. A cell is (configuration, input class, delivery, stored/compressed blocks present).",
+		Assumptions: baseAssumptions,
+		Require: func(rs *runState) string {
+			for _, k := range []string{"frames_with_stored_blocks", "frames_with_zero_block_checksum", "frames_with_zero_content_checksum", "multi_block_frames", "frames_with_empty_stored_block"} {
+				if rs.counters[k] == 0 {
+					return "no emitted frame exercised " + k
+				}
+			}
+			return ""
+		},
+	})
+}
+
 // c12Join compares the result logs of the asm and noasm workers shard by shard.
 func c12Join(rs *runState) {
 	for shard := 0; shard < 16; shard++ {
